@@ -397,6 +397,20 @@ def check_roundtrip(sid, where):
             return (f"{where}:roundtrip:eq:{shape}", f"{b!r} parses back to an id that is != the original")
     if str(p) != b:
         return (f"{where}:reprint:{shape}", f"{b!r} parses back to an id printing as {str(p)!r}")
+    # what a text parses to depends on the text alone - not on what became of an id parsed from it earlier
+    if isinstance(p.prediction_id, list):
+        p.prediction_id.append(97)          # the caller edits the list of the id it was handed
+        p.prediction_id.reverse()
+    p.map_id = p.map_id + 1
+    warned, r = parse_sid(b, sid.scenario_version)
+    if r[0] != "ok" or warned:
+        return (f"{where}:parse-again:raises-or-fallback:{shape}", f"from_benchmark_id({b!r}) fails on the second call")
+    for f in FIELDS:
+        x, y = getattr(sid, f), getattr(r[1], f)
+        if type(x) is not type(y) or x != y:
+            return (f"{where}:parse-again:{f}:{shape}",
+                    f"{b!r} parsed a second time, after the first result was edited in place, gives {f}={y!r} instead "
+                    f"of {x!r}")
     return None
 
 
